@@ -191,7 +191,9 @@ func c02Restore(c c02Case, entries []*rdb.BinEntry, lg *rdbgen.Logical, body []b
 	}
 	// the model's clock is frozen at the start of the case, so no key expires while it runs
 	frozen := nowMs()
-	opt := mredis.Options{Registry: c02Registry, NoReplace: !c.Replace, Now: func() int64 { return frozen }}
+	// a target without RESTORE ... REPLACE is a pre-3.0 kernel: it also words its busy-key error
+	// the old way ("ERR Target key name is busy.")
+	opt := mredis.Options{Registry: c02Registry, NoReplace: !c.Replace, OldBusyText: !c.Replace, Now: func() int64 { return frozen }}
 	if c.Reject {
 		opt.RejectTypes = map[byte]bool{entries[0].Type: true}
 	}
